@@ -42,6 +42,12 @@ class Budget(BaseException):
     parser has `except Exception: pass` blocks that would swallow it."""
 
 
+class AbortShard(BaseException):
+    """Raised after several confirmed hangs in one process: the tree under test does
+    hang, the shard stops (the run is then not exhaustive, and says so) instead of
+    spending the watchdog time on every further case."""
+
+
 class CountingTokens:
     """Wraps the real lexer generator (public `lexer_fn` seam).  Counts every
     next/send, remembers the tokens handed out, and raises Budget when the
@@ -159,10 +165,32 @@ def strict_parser_for_encoder(name, lexer_fn=None):
     return make_parser(name, lexer_fn=lexer_fn)
 
 
+WATCHDOG_S = float(os.environ.get("VERIF_WATCHDOG_S", "20"))
+# set by the first worker that gives up after repeated confirmed hangs; every other
+# worker (forked from this process) then stops at its next load
+ABORT_FLAG = __import__("multiprocessing").RawValue("i", 0)
+
+
+def _on_alarm(signum, frame):
+    raise Budget()
+
+
 def load_outcome(parser, text, factory=None):
     """Runs parser.parse(text) and classifies the outcome:
     ('ok', module) | ('doc', 'LexerError'|'ParseError', exc) |
-    ('spin',) | ('bad', ExcName, exc)."""
+    ('spin',) | ('bad', ExcName, exc).
+
+    Two nets catch non-termination: the step budget of the counting lexer
+    (deterministic; loops that keep asking for tokens) and, for loops that never
+    touch the token stream, an interval timer whose handler raises the same
+    BaseException (the library's `except Exception` blocks cannot swallow it).
+    The timer is generous (30 s for parses that take milliseconds) so that load
+    on the machine cannot turn it into a false alarm."""
+    import signal
+    use_timer = hasattr(signal, "setitimer") and __import__("threading").current_thread() is __import__("threading").main_thread()
+    if use_timer:
+        old = signal.signal(signal.SIGALRM, _on_alarm)
+        signal.setitimer(signal.ITIMER_REAL, WATCHDOG_S + len(text) / 2000.0)
     try:
         m = parser.parse(text)
         return ("ok", m)
@@ -174,3 +202,7 @@ def load_outcome(parser, text, factory=None):
         return ("bad", "RecursionError", e)
     except Exception as e:  # noqa: BLE001
         return ("bad", type(e).__name__, e)
+    finally:
+        if use_timer:
+            signal.setitimer(signal.ITIMER_REAL, 0)
+            signal.signal(signal.SIGALRM, old)
